@@ -18,7 +18,9 @@ WARN_RE = re.compile(r"warning:\s+(\S+?):L(\d+) (\S+) => ([^\n\x1b]*)")
 
 def conforming_cfg(rng, k):
     c = GenCfg(msg_bits=300, max_fields=5, n_top=(2, 6), max_depth=3, p_nested=0.5)
-    c.n_imports = (1, 1) if k % 3 == 0 else (0, 0)
+    # independent of k % 3 (the mode), so that every mode - the invalid one included - also runs with imported files and second-level imports
+    c.n_imports = [(0, 0), (1, 1), (2, 2)][rng.randrange(3)]
+    c.p_import_chain = 0.6
     return c
 
 
